@@ -111,6 +111,12 @@ func genC13(t *rapid.T) interface{} {
 	if rapid.IntRange(0, 15).Draw(t, "leafroot") == 0 {
 		root = genTNode(t, 0)
 	}
+	if rapid.IntRange(0, 14).Draw(t, "deep") == 7 {
+		// a long root-to-leaf path: the tree hangs below a chain of single-child non-terminals
+		for k := rapid.SampledFrom([]int{10, 15, 16, 17, 18, 31, 32, 33, 40, 63, 64, 65, 70}).Draw(t, "chain"); k > 0; k-- {
+			root = &TNode{Kind: 2, Caps: rapid.SampledFrom([]int{0, 0, 1, 5}).Draw(t, "chaincaps"), Kids: []*TNode{root}}
+		}
+	}
 	c := &C13Case{Root: root}
 	if rapid.IntRange(0, 4).Draw(t, "list") == 0 {
 		c.Alts = rapid.IntRange(1, 2).Draw(t, "alts")
